@@ -23,11 +23,21 @@ type c06Opt struct {
 var c06OptForms = []string{"destr", "named", "hash"}
 var c06OptStates = []string{"v", "missing", "nil"}
 
-func c06NOpt(ctx core.Ctx) int { return 3*81*2 + 3*2 + 3*2*2 }
+var c06OptNames = []string{"title", "sidebar", "slot", "toolbar", "left", "over", "v", "t-s", "vslot", "s", "o1", "default-x", "header2", "x_y"}
+
+func c06NOpt(ctx core.Ctx) int { return 3*81*2 + 3*2 + 3*2*2 + len(c06OptNames)*4*2 }
 
 func c06BuildOpt(i int) c06Case {
 	o := c06Opt{Entry: []string{"vue", "file"}[i%2]}
 	i /= 2
+	if i >= 3*81+3+6 {
+		// slot names of every initial letter, in the long and the short supply form
+		j := i - (3*81 + 3 + 6)
+		o.Shape = "names"
+		o.Form = []string{"long", "hash", "long-scoped", "hash-scoped"}[j%4]
+		o.Notes = []string{c06OptNames[(j/4)%len(c06OptNames)]}
+		return c06Case{Part: "opt", Opt: &o}
+	}
 	if i >= 3*81+3 {
 		// an include / a <template v-html> written in the slot content of a slot that is filled per loop iteration
 		j := i - 3*81 - 3
@@ -53,8 +63,69 @@ func c06BuildOpt(i int) c06Case {
 	return c06Case{Part: "opt", Opt: &o}
 }
 
+func c06ExecOptNames(c c06Case, o *core.Obs) {
+	op := c.Opt
+	name := op.Notes[0]
+	other := "zz" + name
+	sup := func(n, body string) string {
+		switch op.Form {
+		case "long":
+			return `<template v-slot:` + n + `>` + body + `</template>`
+		case "hash":
+			return `<template #` + n + `>` + body + `</template>`
+		case "long-scoped":
+			return `<template v-slot:` + n + `="p">` + body + `{{ p.k }}</template>`
+		default:
+			return `<template #` + n + `="p">` + body + `{{ p.k }}</template>`
+		}
+	}
+	page := `<template include="comp.vuego">` + sup(name, `<b data-m="A">a</b>`) + sup(other, `<b data-m="B">b</b>`) + `<i data-m="D">d</i></template>`
+	comp := `<div data-m="comp"><header data-m="s1"><slot name="` + name + `" :k="1">FB1</slot></header><main data-m="s0"><slot>FB0</slot></main><footer data-m="s2"><slot name="` + other + `" :k="2">FB2</slot></footer></div>`
+	files := map[string]string{"page.vuego": page, "comp.vuego": comp}
+	var out string
+	var err error
+	if op.Entry == "vue" {
+		out, err = renderVue(memFS(files), "page.vuego", map[string]any{})
+	} else {
+		out, err = renderFile(memFS(files), "page.vuego", map[string]any{})
+	}
+	o.Evals++
+	o.NT("opt-names", mustJSON(op))
+	o.Cell("part/opt/names/" + op.Form)
+	if err != nil {
+		o.Fail(c, "opt/names/render-error", "render failed: %v\npage: %s", err, page)
+		return
+	}
+	doc := oracle.Parse(out, false)
+	where := func(slot string) []string {
+		w := doc.ByAttr("data-m", slot)
+		if len(w) != 1 {
+			return []string{"?"}
+		}
+		var ms []string
+		for _, m := range w[0].AllMarkers("data-m") {
+			if m != slot {
+				ms = append(ms, m)
+			}
+		}
+		if strings.Contains(w[0].InnerText(), "FB") {
+			ms = append(ms, "FALLBACK")
+		}
+		return ms
+	}
+	got := fmt.Sprint(where("s1"), where("s0"), where("s2"))
+	want := fmt.Sprint([]string{"A"}, []string{"D"}, []string{"B"})
+	if got != want {
+		o.Fail(c, "opt/names/content-in-wrong-slot-or-fallback/"+op.Form, "slot named %q (and %q) supplied in form %s: want [named: A] [unnamed: D] [other: B], got %s\npage: %s\ncomponent: %s\noutput: %s", name, other, op.Form, got, page, comp, out)
+	}
+}
+
 func c06ExecOpt(c c06Case, o *core.Obs) {
 	op := c.Opt
+	if op.Shape == "names" {
+		c06ExecOptNames(c, o)
+		return
+	}
 	var page, comp string
 	data := map[string]any{}
 	var want []string // expected marker sequence inside the component
